@@ -14,7 +14,27 @@ type vPool struct {
 	canon []int // canon[i] = smallest j with keys[j] == keys[i]
 }
 
+// vConcreteKeyFamilies: concrete pools built around representation boundaries that short symbolic keys cannot
+// reach (param ckeys = 1-based family): the skip list orders by a float64 score of the first 8 bytes (53
+// significant bits), so keys equal in 7 bytes and different in the 8th share a score; keys that are
+// prefixes of each other; 0x00 / 0xFF neighbours; lengths 7/8/9.
+var vConcreteKeyFamilies = [][]string{
+	{"acct:001/balance", "acct:002/balance", "acct:00"},
+	{"k", "k\x00", "k\xff"},
+	{"1234567", "12345678", "123456789"},
+	{"\xff\xff\xff\xff\xff\xff\xff\xfe", "\xff\xff\xff\xff\xff\xff\xff\xff", "\xff\xff\xff\xff\xff\xff\xff\xff\x00"},
+}
+
 func verifKeyPool(p int, maxLen int) *vPool {
+	if f := verifParam("ckeys"); f > 0 {
+		fam := vConcreteKeyFamilies[f-1]
+		kp := &vPool{}
+		for i, k := range fam {
+			kp.keys = append(kp.keys, []byte(k))
+			kp.canon = append(kp.canon, i)
+		}
+		return kp
+	}
 	kp := &vPool{keys: make([][]byte, p), canon: make([]int, p)}
 	for i := 0; i < p; i++ {
 		kl := 1
@@ -193,4 +213,20 @@ func verifValue(name string) []byte {
 		l = verifParam("vbig3")
 	}
 	return verifBytes(name, l)
+}
+
+// vPrefill: n acknowledged Puts (pool keys in turn, symbolic 1-byte values) before the history under test.
+// With a DataFileSize of about one record every Put rotates, so the directory holds n data files
+// (ids up to n-1: two-digit ids, ids beyond a shard/array size, ...) without any branching.
+func vPrefill(db *DB, kp *vPool, m *vModel, id string) {
+	n := verifParam("fill")
+	for i := 0; i < n; i++ {
+		ki := i % len(kp.keys)
+		v := verifBytes("fill", 1)
+		verifAssert(db.Put(kp.keys[ki], v) == nil, id+".fill-put-err")
+		m.put(ki, v)
+	}
+	if n > 0 && len(db.olderFiles) >= 9 {
+		verifReach("many-files")
+	}
 }
